@@ -5,7 +5,7 @@ From SyncFut Require Import Model Spec Inv.
 
 Ltac destruct_state s :=
   let r := fresh "rdy" in let f := fresh "fn" in let c := fresh "sfc" in
-  destruct s as [opq0 cur0 parked0 pool0 r f c evs0 sst0 txheld0 uscr0 uval0 pc0 pollable0 log0];
+  destruct s as [opq0 cur0 parked0 owk0 pool0 r f c evs0 sst0 txheld0 uscr0 uval0 pc0 pollable0 log0];
   destruct r as [rsent rtx rrx rwk]; destruct f as [fsent ftx frx fwk]; destruct c as [sres swk].
 
 Ltac qs_cases H :=
@@ -44,8 +44,10 @@ Proof.
   all: cbn; unfold ready_done; cbn.
   all: unfold fin_done, task_waker_only; cbn.
   all: try (rewrite Hx1 in c_at; cbn in c_at).
-  all: unfold ready_done in *; cbn in *.
-  all: try solve [timeout 2 (destruct r; naive_solver)].
+  all: unfold ready_done, parked_other in *; cbn in *.
+  all: try (destruct (existsb is_slot opq0); cbn in * ).
+  all: unfold ready_done, parked_other in *; cbn in *.
+  all: try solve [timeout 5 (destruct r, parked0; naive_solver)].
 Qed.
 
 (* ---------- frame of a queue step ---------- *)
@@ -164,34 +166,36 @@ Proof.
   - destruct e; cbn in He; try discriminate He; try done; cbn; intros HF Ha; apply Hph; by eapply alive_phase.
 Qed.
 
-Lemma qs_wait r s s' : cells_ok s -> wait_ok s -> queue_step r s = Some s' -> wait_ok s'.
+Lemma qs_wait r s s' : cells_ok s -> wait_ok s -> (s.(pc) = PIdle -> s.(pool) = true) -> queue_step r s = Some s' -> wait_ok s'.
 Proof.
-  intros Hc Hw2 Hs. pose proof (c_w_ready _ Hc) as Hwr. pose proof (c_w_sf _ Hc) as Hws. clear Hc.
+  intros Hc Hw2 Hpl Hs. pose proof (c_w_ready _ Hc) as Hwr. pose proof (c_w_sf _ Hc) as Hws. clear Hc.
   unfold wait_ok in *. destruct_state s. cbn in *. qs_cases Hs.
   all: destruct Hwr as [->| ->]; destruct Hws as [->| ->]; cbn.
   all: try done.
-  all: intros Hpc; specialize (Hw2 Hpc).
+  all: intros Hpc; specialize (Hw2 Hpc); specialize (Hpl Hpc); subst pool0.
   all: try (by left).
-  all: destruct sst0; naive_solver.
+  all: destruct Hw2 as [Hw2|Hw2]; [by left|right].
+  all: destruct sst0; try done.
+  all: try (destruct Hw2 as (? & ? & ?); split_and!; try done; by left).
 Qed.
 
 Lemma cells_ok_view s s' :
   s'.(opq) = s.(opq) -> s'.(cur) = s.(cur) -> s'.(parked) = s.(parked) -> s'.(ready) = s.(ready) ->
-  s'.(fin) = s.(fin) -> s'.(sf) = s.(sf) -> s'.(evs) = s.(evs) -> s'.(txheld) = s.(txheld) ->
+  s'.(fin) = s.(fin) -> s'.(sf) = s.(sf) -> s'.(evs) = s.(evs) -> s'.(txheld) = s.(txheld) -> s'.(owk) = s.(owk) ->
   cells_ok s -> cells_ok s'.
 Proof.
-  intros E1 E2 E3 E4 E5 E6 E7 E8 [H1 H2 H3 H4 H5 H6 H7].
-  split; unfold phase, fin_done in *; rewrite ?E1, ?E2, ?E3, ?E4, ?E5, ?E6, ?E7, ?E8; try done.
-  eapply cells_at_view; [..|exact H1]; unfold fin_done; by rewrite ?E3, ?E4, ?E5, ?E6.
+  intros E1 E2 E3 E4 E5 E6 E7 E8 E9 [H1 H2 H3 H4 H5 H6 H7 H8].
+  split; unfold phase, fin_done in *; rewrite ?E1, ?E2, ?E3, ?E4, ?E5, ?E6, ?E7, ?E8, ?E9; try done.
+  eapply cells_at_view; [..|exact H1]; unfold fin_done; by rewrite ?E2, ?E3, ?E4, ?E5, ?E6.
 Qed.
 
 Lemma wait_ok_view s s' :
   s'.(uscr) = s.(uscr) -> s'.(evs) = s.(evs) -> s'.(sst) = s.(sst) -> s'.(ready) = s.(ready) ->
-  s'.(sf) = s.(sf) -> s'.(pool) = s.(pool) ->
+  s'.(sf) = s.(sf) -> s'.(pool) = s.(pool) -> s'.(parked) = s.(parked) -> s'.(cur) = s.(cur) -> s'.(owk) = s.(owk) ->
   (s'.(pc) = PIdle -> s.(pc) = PIdle /\ (s.(pollable) = true -> s'.(pollable) = true)) ->
   wait_ok s -> wait_ok s'.
 Proof.
-  unfold wait_ok. intros -> -> -> -> -> -> Hp H2.
+  unfold wait_ok. intros -> -> -> -> -> -> -> -> -> Hp H2.
   intros E. destruct (Hp E) as [E' Hq]. destruct (H2 E') as [?|?]; [left; auto|by right].
 Qed.
 
@@ -218,7 +222,7 @@ Proof.
   - eapply sst_ok_view; [..|exact Hss]; try done. by rewrite E7.
   - exact (qs_pc_pool _ _ _ _ Hp Ed Epool Hs).
   - eapply ulog_ok_view; [..|exact Hu]; try done; by rewrite E7.
-  - exact (qs_wait _ _ _ Hc Hw Hs).
+  - exact (qs_wait _ _ _ Hc Hw (fun _ => Epool) Hs).
   - exact (qs_logok _ _ _ _ _ _ HI Hs).
 Qed.
 
@@ -265,12 +269,12 @@ Proof.
   - eapply sst_ok_view; [..|exact Hss]; try done. cbn. rewrite Epc. split; [|done]. intros E; rewrite E in Hpd; done.
   - unfold pc_ok. cbn. rewrite E1.
     destruct (qs_phase3 _ _ _ _ _ Hq Hph Hq1) as [H3|H3].
-    + subst p. destruct (cur s1) as [| |[]] eqn:Ec; try done. destruct (parked s1) eqn:Epk; done.
+    + subst p. destruct (cur s1) as [| |[]] eqn:Ec; try done. destruct (parked s1) eqn:Epk; [|done]. split_and!; try done. by left.
     + subst p. rewrite H3. done.
   - eapply ulog_ok_view; [..|exact Hu]; try done; cbn; rewrite Epc.
     + by destruct p.
     + split; [|done]. intros E; rewrite E in Hpd; done.
     + split; [|done]. intros E; rewrite E in Hpd; done.
-  - eapply wait_ok_view; [..|exact (qs_wait _ _ _ Hc Hw Hq1)]; try done. cbn. intros E; rewrite E in Hpd; done.
+  - eapply wait_ok_view; [..|exact (qs_wait _ _ _ Hc Hw ltac:(intros E; rewrite Epc in E; done) Hq1)]; try done. cbn. intros E; rewrite E in Hpd; done.
   - exact (qs_logok _ _ _ _ _ _ HI Hq1).
 Qed.
